@@ -14,5 +14,6 @@ CONSTANTS
   DefaultsUntouched = TRUE
   OrderedIteration = FALSE
   SummaryStateless = TRUE
+  WeightsRebuilt = TRUE
 INVARIANT Functional
 CHECK_DEADLOCK FALSE
